@@ -14,17 +14,31 @@ pub fn run(w: Arc<Walrus>, topics: &[String], threads: &[Vec<Op>], schedule: &[u
     let n = threads.len();
     verif::sched_begin(n, schedule.to_vec());
     let results = Arc::new(std::sync::Mutex::new(Vec::<ConcRes>::new()));
+    // crash searches: every invocation and every return is logged with one write(2) before the
+    // thread can be descheduled, so the log of a killed process tells what was acknowledged
+    let acklog: Arc<Option<std::sync::Mutex<std::fs::File>>> = Arc::new(
+        std::env::var("WVERIF_CONC_ACKLOG").ok().and_then(|p| std::fs::OpenOptions::new().create(true).append(true).open(p).ok()).map(std::sync::Mutex::new),
+    );
+    let note = |log: &Option<std::sync::Mutex<std::fs::File>>, line: String| {
+        if let Some(f) = log {
+            use std::io::Write;
+            let _ = f.lock().unwrap().write_all(line.as_bytes());
+        }
+    };
     let mut handles = Vec::new();
     for (tid, prog) in threads.iter().enumerate() {
         let w = w.clone();
         let topics = topics.to_vec();
         let prog = prog.clone();
         let results = results.clone();
+        let acklog = acklog.clone();
         handles.push(std::thread::spawn(move || {
             verif::thread_start(tid);
             for (idx, op) in prog.iter().enumerate() {
                 let invoked = verif::stamp();
+                note(&acklog, format!("s {} {}\n", tid, idx));
                 let resp = crate::exec::run_data_op(&w, &topics, op);
+                note(&acklog, format!("a {} {} {}\n", tid, idx, if matches!(resp, Resp::Err { .. }) { "err" } else { "ok" }));
                 let returned = verif::stamp();
                 results.lock().unwrap().push(ConcRes { thread: tid, idx, invoked, returned, resp });
                 // a scheduling point between operations
